@@ -26,6 +26,8 @@ def to_json(e):
         return ["s", e]
     if isinstance(e, p.Variable):
         return ["v", e.name]
+    if isinstance(e, np.ndarray) and e.dtype == object and e.ndim == 1:
+        return ["nparr", [to_json(c) for c in e]]
     if isinstance(e, p.Sum):
         return ["sum", [to_json(c) for c in e.children]]
     if isinstance(e, p.Product):
@@ -78,6 +80,11 @@ def from_json(j):
         return complex(j[1], j[2])
     if t == "v":
         return p.Variable(j[1])
+    if t == "nparr":                   # a numpy object array holding expressions (vector-valued right-hand side)
+        a = np.empty(len(j[1]), dtype=object)
+        for k, c in enumerate(j[1]):
+            a[k] = from_json(c)
+        return a
     if t == "sum":
         return p.Sum(tuple(from_json(c) for c in j[1]))
     if t == "prod":
@@ -129,7 +136,7 @@ def variables(j, out=None):
     t = j[0]
     if t == "v":
         out.add(j[1])
-    elif t in ("sum", "prod", "and", "or", "min", "max", "tuple"):
+    elif t in ("sum", "prod", "and", "or", "min", "max", "tuple", "nparr"):
         for c in j[1]:
             variables(c, out)
     elif t in ("pow", "quot", "fdiv", "rem"):
@@ -166,6 +173,8 @@ def show(j):
         return "(%d+%dj)" % (j[1], j[2])
     if t == "v":
         return j[1]
+    if t == "nparr":
+        return "array([" + ", ".join(show(c) for c in j[1]) + "])"
     if t == "sum":
         return "(" + " + ".join(show(c) for c in j[1]) + ")"
     if t == "prod":
